@@ -32,20 +32,27 @@ THEOREMS = ["QExPy.C20_valid_print_style",
             "QExPy.C20_temp_nested"]
 RULE = ("programs over the q.set_* functions (and the same setters through attributes of "
         "q.get_settings()), reset_default_configuration, reads and use_mc_sample_size wrappers "
-        "(returning / raising / nested bodies that themselves issue requests), arguments from the "
-        "alphabet enum member of each of the 4 enum classes / literal and non-literal strings / "
-        "ints / floats incl. nan, inf / bools / tuples of length 0-3 / None / list, dict, object, "
-        "numpy scalar and array; every option read after every call and compared with the Lean "
-        "state machine and with direct property oracles (atomicity, documented-value acceptance, "
-        "frame, reset = state of a NEW interpreter process, override restored); quick = exhaustive "
-        "single calls in 3 contexts + random programs of 5-30 statements, thorough = all sequences "
-        "up to length 4 over a per-length alphabet; non-trivial = the program contains a rejected "
-        "call between two accepted ones, or a raising/nested override; distinct by hash of the "
-        "program")
+        "(bodies that themselves issue requests, nest, and end by returning or by raising Boom / "
+        "ValueError / KeyboardInterrupt / SystemExit / GeneratorExit / a direct subclass of "
+        "BaseException; decorated right before the call or before the program starts), arguments "
+        "from the alphabet enum member of each of the 4 enum classes / literal strings, their "
+        "upper-case, capitalised, blank-padded and member-NAME variants and other strings / ints / "
+        "floats incl. nan, inf and numpy.float64 / bools / tuples of length 0-3 incl. numeric "
+        "strings / None / list, dict, object, numpy integer, float32 and array, Fraction, bytes; "
+        "every option read after every call and compared with the Lean state machine and with "
+        "direct property oracles (atomicity, documented-value acceptance, frame, reset = state of a "
+        "NEW interpreter process, override restored after every outcome); FunctionOnPlot.yvalues / "
+        "yerr with curve functions ending in each of these ways; quick = exhaustive single calls in "
+        "3 contexts + random programs of 5-30 statements, thorough = all sequences up to length 4 "
+        "over a per-length alphabet; non-trivial = the program contains a rejected call between two "
+        "accepted ones, or a raising/nested override; distinct by hash of the program")
 ASSUMPTIONS = ["the settings object is only reached through q.set_*, reset_default_configuration, "
                "attributes of q.get_settings() and use_mc_sample_size (no write to the private dict)",
-               "bool arguments (True is the int 1 in Python) and the AUTO member of ErrorMethod are "
+               "bool arguments (True is the int 1 in Python), the AUTO member of ErrorMethod and numbers "
+               "that are neither int nor float instances (numpy integers, numpy.float32, Fraction) are "
                "generated and followed by the model but their acceptance is not judged",
+               "the wrapped computation is an ordinary call with positional arguments (generator "
+               "functions and keyword arguments of the decorated function are outside the statement)",
                "single-threaded use"]
 TRUSTED = ["modelled not verified: CPython isinstance / `in` on lists / Enum lookup by value, "
            "try/finally semantics",
@@ -120,13 +127,18 @@ def A_int(n):
     return {"k": "int", "v": n}
 
 
-def A_float(x):
+def A_float(x, np=False):
+    """a Python float; np=True: the same value as numpy.float64 (a subclass of float)"""
     if x != x:
-        return {"k": "float", "v": "nan"}
-    if math.isinf(x):
-        return {"k": "float", "v": "inf" if x > 0 else "-inf"}
-    n, d = float(x).as_integer_ratio()
-    return {"k": "float", "v": [n, d]}
+        a = {"k": "float", "v": "nan"}
+    elif math.isinf(x):
+        a = {"k": "float", "v": "inf" if x > 0 else "-inf"}
+    else:
+        n, d = float(x).as_integer_ratio()
+        a = {"k": "float", "v": [n, d]}
+    if np:
+        a["np"] = True
+    return a
 
 
 def A_bool(b):
@@ -148,6 +160,15 @@ def enum_members(q):
     return {ty: [m.name for m in getattr(q, ty)] for ty in ENUMS}
 
 
+# kinds of the extended alphabet: used for every single call in 3 contexts (both tiers) and by the
+# random programs, but left out of the exhaustive length-2 enumeration of the thorough tier
+EXT_KINDS = ("str:variant", "float:np", "tuple:ext", "other:ext")
+# numbers that are neither `int` nor `float` instances: the statement ("positive integers", "positive
+# numbers") is silent on them, the code refuses them, the model follows the code (`other`), and
+# their acceptance is not judged
+NOT_JUDGED_NUMBERS = ("np.int64", "np.float32", "Fraction")
+
+
 def alphabet(q):
     """full argument alphabet, each with a coarse kind label for the distribution"""
     out = []
@@ -160,10 +181,20 @@ def alphabet(q):
         out.append(("str:literal", A_str(s)))
     for s in ["", "Default", "DEFAULT", "DERIVATIVE", "bogus", "monte_carlo", "latex ", "5"]:
         out.append(("str:other", A_str(s)))
+    # near misses of every literal: other case, surrounding blanks, the member NAME instead of its
+    # value (a setter that normalises its argument accepts them)
+    have = {a["v"] for k, a in out if a["k"] == "str"}
+    names = sorted({m.name for ty in ENUMS for m in getattr(q, ty)})
+    for v in [f(x) for x in lits for f in (str.upper, str.capitalize, " {}".format, "{} ".format,
+                                            lambda t: t.replace("-", "_"))] + names:
+        if v not in have:
+            have.add(v)
+            out.append(("str:variant", A_str(v)))
     for n in [-1, 0, 1, 2, 7, 10 ** 6, 10 ** 20, -10 ** 20]:
         out.append(("int", A_int(n)))
     for x in [1.0, 2.5, 0.0, -1.5, 1e-300, float("inf"), float("-inf"), float("nan")]:
         out.append(("float", A_float(x)))
+    out += [("float:np", A_float(5.0, np=True)), ("float:np", A_float(2.5, np=True))]
     out += [("bool", A_bool(True)), ("bool", A_bool(False)), ("none", A_NONE)]
     tup = [A_tuple(A_float(6.4), A_float(4.8)), A_tuple(A_int(1), A_int(2)),
            A_tuple(A_float(1.5), A_int(3)), A_tuple(A_int(0), A_int(1)),
@@ -176,8 +207,15 @@ def alphabet(q):
            A_tuple(A_float(0.0), A_float(1.0)), A_tuple(A_enum("UnitStyle", mem["UnitStyle"][0]), A_int(1))]
     for t in tup:
         out.append(("tuple", t))
+    for t in [A_tuple(A_str("6.4"), A_float(4.8)), A_tuple(A_int(3), A_str("2")),
+              A_tuple(A_float(6.4, np=True), A_float(4.8)), A_tuple(A_other("np.int64"), A_int(4)),
+              A_tuple(A_other("np.float32"), A_int(1)), A_tuple(A_other("Fraction"), A_int(1)),
+              A_tuple(A_float(2.0), A_float(3.0), A_float(-1.0)), A_tuple(A_other("bytes"), A_int(1))]:
+        out.append(("tuple:ext", t))
     for w in ["list", "dict", "object", "np.int64", "np.array", "bytes"]:
         out.append(("other", A_other(w)))
+    for w in ["np.float32", "Fraction", "list3", "str-list"]:
+        out.append(("other:ext", A_other(w)))
     return out
 
 
@@ -193,18 +231,20 @@ def build(q, a):
         return int(a["v"])
     if k == "float":
         v = a["v"]
-        if isinstance(v, str):
-            return float(v)
-        return v[0] / v[1]
+        x = float(v) if isinstance(v, str) else v[0] / v[1]
+        return np.float64(x) if a.get("np") else x
     if k == "bool":
         return bool(a["v"])
     if k == "tuple":
         return tuple(build(q, x) for x in a["v"])
     if k == "none":
         return None
+    import fractions
     w = a.get("what", "object")
     return {"list": [6.4, 4.8], "dict": {"a": 1}, "object": object(), "np.int64": np.int64(5),
-            "np.array": np.array([1, 2]), "bytes": b"latex"}.get(w, object())
+            "np.array": np.array([1, 2]), "bytes": b"latex", "np.float32": np.float32(2.5),
+            "Fraction": fractions.Fraction(5, 1), "list3": [1, 2, 3],
+            "str-list": ["latex"]}.get(w, object())
 
 
 def model_arg(a):
@@ -213,6 +253,8 @@ def model_arg(a):
         return {"k": "tuple", "v": [model_arg(x) for x in a["v"]]}
     if a["k"] == "other":
         return {"k": "other"}
+    if a["k"] == "float":
+        return {"k": "float", "v": a["v"]}
     return a
 
 
@@ -298,30 +340,55 @@ def fresh_process_state():
 
 
 def execute(q, prog, via_attr=False):
-    """run a program on the real singleton; returns the trace in the model's format"""
+    """run a program on the real singleton; returns the trace in the model's format.
+    A temp statement marked "early" is decorated before the program starts (the way
+    plotobjects.py decorates at import time), the others right before their call; temp statements
+    with the same size share one `use_mc_sample_size(size)` decorator."""
     import qexpy.settings.settings as S
     trace = []
+    decos = {}
+
+    def prepare(s):
+        token = object()
+        name = raise_name(s)
+        exc = RAISES[name](id(token)) if name else None
+
+        def body():
+            trace.append({"t": "enter", "cfg": state(q)})
+            run(s["body"])
+            if exc is not None:
+                raise exc
+            return token
+        key = json.dumps(s["size"], sort_keys=True, default=str)
+        try:
+            if key not in decos:
+                decos[key] = S.use_mc_sample_size(build(q, s["size"]))
+            fn = decos[key](body)
+        except Exception:  # noqa: BLE001  (a decorator that validates its size when it is applied)
+            fn = None
+        return token, name, exc, fn
+
+    early = {}
+
+    def pre(stmts):
+        for s in stmts:
+            if s["op"] == "temp":
+                if s.get("early"):
+                    early.setdefault(id(s), []).append(prepare(s))
+                pre(s["body"])
 
     def run(stmts):
         for s in stmts:
             op = s["op"]
             if op == "temp":
-                token = object()
-                size = build(q, s["size"])
-                name = raise_name(s)
-                exc = RAISES[name](id(token)) if name else None
-
-                def body(s=s, token=token, exc=exc):
-                    trace.append({"t": "enter", "cfg": state(q)})
-                    run(s["body"])
-                    if exc is not None:
-                        raise exc
-                    return token
+                token, name, exc, fn = early[id(s)].pop(0) if early.get(id(s)) else prepare(s)
                 res = None
                 # BaseException: the body may end in KeyboardInterrupt / SystemExit / GeneratorExit,
                 # which must neither kill the check nor be mistaken for a refused size
                 try:
-                    r = S.use_mc_sample_size(size)(body)()
+                    if fn is None:
+                        raise ValueError("refused when the decorator was applied")
+                    r = fn()
                     res = "ok" if r is token else "ok-but-result-changed"
                 except BaseException as e:  # noqa: BLE001
                     if exc is not None and e is exc:
@@ -353,6 +420,7 @@ def execute(q, prog, via_attr=False):
             except Exception:  # noqa: BLE001  (any exception raised for the request = reject)
                 res = "reject"
             trace.append({"t": "op", "r": res, "cfg": state(q)})
+    pre(prog)
     run(prog)
     return trace
 
@@ -375,7 +443,7 @@ def documented(q, op, a):
         return False
     if op in ("sig_fig_value", "set_sig_figs_for_value", "set_sig_figs_for_error",
               "set_monte_carlo_sample_size"):
-        if k == "bool":
+        if k == "bool" or (k == "other" and a.get("what") in NOT_JUDGED_NUMBERS):
             return None
         return k == "int" and a["v"] > 0
     if op == "set_plot_dimensions":
@@ -383,7 +451,7 @@ def documented(q, op, a):
             return False
         ok = True
         for x in a["v"]:
-            if x["k"] == "bool":
+            if x["k"] == "bool" or (x["k"] == "other" and x.get("what") in NOT_JUDGED_NUMBERS):
                 return None
             if x["k"] == "int":
                 ok = ok and x["v"] > 0
@@ -535,6 +603,41 @@ def direct_oracles(q, prog, trace, start, fresh):
     return fails
 
 
+def event_stmts(prog, trace):
+    """the statement that produced each event of a trace (enter and exit -> the temp statement)"""
+    out = {}
+    pos = [0]
+
+    def walk(stmts):
+        for s in stmts:
+            if pos[0] >= len(trace):
+                return
+            if s["op"] == "temp":
+                out[pos[0]] = s
+                entered = trace[pos[0]].get("t") == "enter"
+                pos[0] += 1
+                if entered:
+                    walk(s["body"])
+                    out[pos[0]] = s
+                    pos[0] += 1
+            else:
+                out[pos[0]] = s
+                pos[0] += 1
+    walk(prog)
+    return out
+
+
+def judged(q, s):
+    """(op, kind of the argument, is the acceptance of this request judged by the statement?)"""
+    if s is None:
+        return "len", "-", True
+    if s["op"] == "temp":
+        return "temp", kind_of(s["size"]), documented(q, "set_monte_carlo_sample_size", s["size"]) is not None
+    if "arg" in s:
+        return s["op"], kind_of(s["arg"]), documented(q, s["op"], s["arg"]) is not None
+    return s["op"], "-", True
+
+
 # ------------------------------------------------------------------ generators
 def gen_stmt(rng, alpha, depth):
     r = rng.random()
@@ -549,7 +652,7 @@ def gen_stmt(rng, alpha, depth):
         body = [gen_stmt(rng, alpha, depth + 1) for _ in range(rng.randint(0, 4))]
         r = rng.random()
         rz = False if r < 0.4 else True if r < 0.6 else rng.choice(sorted(RAISES))
-        return {"op": "temp", "size": size, "raise": rz, "body": body}
+        return {"op": "temp", "size": size, "raise": rz, "body": body, "early": rng.random() < 0.5}
     op = rng.choice(SET_OPS)
     if rng.random() < 0.55:
         arg = valid_arg(rng, op, alpha)
@@ -603,20 +706,38 @@ def single_call_programs(q, alpha):
                 progs.append(pre[:3] + [{"op": op, "arg": a, "attr": True},
                                         {"op": "set_sig_figs_for_error", "arg": A_int(2)}])
     # the override with every argument as its size, with every way the body can end: returning,
-    # raising an Exception, raising a BaseException that is not an Exception
-    for _, a in alpha:
-        for rz in [False] + sorted(RAISES):
-            progs.append(pre[2:3] + [{"op": "temp", "size": a, "raise": rz,
+    # raising an Exception, raising a BaseException that is not an Exception; decorated right
+    # before the call / before the program starts
+    ends = [False] + sorted(RAISES)
+    for i, (_, a) in enumerate(alpha):
+        for j, rz in enumerate(ends):
+            progs.append(pre[2:3] + [{"op": "temp", "size": a, "raise": rz, "early": (i + j) % 2 == 1,
                                       "body": [{"op": "read"}]}, {"op": "read"}])
     # ... and with a body that changes options (the size itself included) before it ends, nested
-    for rz in [False] + sorted(RAISES):
-        for rz2 in [False] + sorted(RAISES):
-            inner = {"op": "temp", "size": A_int(31), "raise": rz2,
-                     "body": [{"op": "set_monte_carlo_sample_size", "arg": A_int(9)},
-                              {"op": "set_print_style", "arg": A_str("scientific")}]}
-            progs.append(pre[2:3] + [{"op": "temp", "size": A_int(55), "raise": rz,
-                                      "body": [{"op": "set_unit_style", "arg": A_str("fraction")},
-                                               inner, {"op": "read"}]}, {"op": "read"}])
+    for rz in ends:
+        for rz2 in ends:
+            for early in (False, True):
+                inner = {"op": "temp", "size": A_int(31), "raise": rz2, "early": early,
+                         "body": [{"op": "set_monte_carlo_sample_size", "arg": A_int(9)},
+                                  {"op": "set_print_style", "arg": A_str("scientific")}]}
+                progs.append(pre[2:3] + [{"op": "temp", "size": A_int(55), "raise": rz, "early": early,
+                                          "body": [{"op": "set_unit_style", "arg": A_str("fraction")},
+                                                   inner, {"op": "read"}]}, {"op": "read"}])
+    # ... in a session that still has the default size, with the default / the current size as the
+    # temporary one, and with a body that changes the size while the temporary size equals the saved
+    for rz in ends:
+        for k in (55, 10000):
+            progs.append([{"op": "temp", "size": A_int(k), "raise": rz,
+                           "body": [{"op": "set_monte_carlo_sample_size", "arg": A_int(9)}]},
+                          {"op": "read"}])
+            progs.append(pre[2:3] + [{"op": "temp", "size": A_int(k), "raise": rz,
+                                      "body": [{"op": "read"}]}, {"op": "read"}])
+        progs.append(pre[2:3] + [{"op": "temp", "size": A_int(777), "raise": rz,
+                                  "body": [{"op": "set_monte_carlo_sample_size", "arg": A_int(9)}]},
+                                 {"op": "read"}])
+        # the same decorated statement twice (one decorator, two wrapped bodies)
+        t = {"op": "temp", "size": A_int(55), "raise": rz, "body": [{"op": "read"}]}
+        progs.append([t, {"op": "set_monte_carlo_sample_size", "arg": A_int(4321)}, t, {"op": "read"}])
     return progs
 
 
@@ -627,7 +748,7 @@ def thorough_alphabet(q, alpha, level):
     def pick(kinds_vals):
         return kinds_vals
     if level == "full":      # length <= 2
-        args = [a for _, a in alpha]
+        args = [a for k, a in alpha if k not in EXT_KINDS]
     elif level == "medium":  # length 3
         args = [A_enum("ErrorMethod", "MONTE_CARLO"), A_enum("PrintStyle", "LATEX"),
                 A_enum("UnitStyle", "FRACTION"), A_str("latex"), A_str("monte-carlo"),
@@ -660,7 +781,7 @@ def thorough_alphabet(q, alpha, level):
     if level != "small":
         stmts.append({"op": "temp", "size": A_int(77), "raise": "SystemExit" if level == "full" else "BaseBoom",
                       "body": [{"op": "set_monte_carlo_sample_size", "arg": A_int(8)}]})
-    stmts.append({"op": "temp", "size": A_int(66), "raise": False,
+    stmts.append({"op": "temp", "size": A_int(66), "raise": False, "early": True,
                   "body": [{"op": "set_print_style", "arg": A_str("scientific")}]})
     if level != "small":
         stmts.append({"op": "temp", "size": A_int(0), "raise": False, "body": [{"op": "reset"}]})
@@ -702,8 +823,18 @@ def compare(q, progs, ctx, ref=False, fresh=None, dist=None):
             bad = (min(len(tr), len(mt)), None, None)
         if bad and not df:
             i, a, b = bad
-            failures.append({"signature": "c20:trace:{}".format(
-                (a or {}).get("t", "len")), "kind": "disagreement",
+            op, kind, is_judged = judged(q, event_stmts(p, tr).get(i))
+            if not is_judged and a is not None and a.get("r") != b.get("r"):
+                # model and implementation differ on whether an argument is accepted about which
+                # the statement is silent (bool where an int is expected, the AUTO member, numbers
+                # that are neither int nor float): the model follows the unchanged code there, and a
+                # difference is not a failure of the property (the translator reports the changed
+                # setter; without a failing input the run ends in no-failing-input-found)
+                if dist is not None:
+                    dist["trace difference on a not-judged argument (ignored)"] += 1
+                continue
+            failures.append({"signature": "c20:trace:{}:{}:{}".format(
+                (a or {}).get("t", "len"), op, kind), "kind": "disagreement",
                 "what": "implementation and model traces differ at event {}".format(i),
                 "input": p, "impl": a, "expected": b})
         elif bad and df and not ref:
@@ -836,7 +967,7 @@ def correspond(ctx, ref=False, boost=1):
     CH = 20000
     for i in range(0, len(progs), CH):
         chunk = progs[i:i + CH]
-        fs, traces = compare(q, chunk, ctx, ref=ref, fresh=fresh)
+        fs, traces = compare(q, chunk, ctx, ref=ref, fresh=fresh, dist=dist)
         failures += fs
         for p, (start, tr) in zip(chunk, traces):
             evals += 1
